@@ -125,11 +125,19 @@ PROPS = {
                           "penalty monotonicity of PELT's changepoint count: bounded grid.",
             "level_note": "LOG/SQRT uninterpreted with the axiom instances listed in evidence; intermediate penalty assumed as increments of an uninterpreted "
                           "cumulative function; np.quantile assumed"},
-    "C16": {"category": "exploration", "driver": "C16", "claimed": True,
-            "technique": "bounded run-time check of find_affected_components / run_mvcapa / MVCAPA.transform against top-k and argmax-k oracles",
-            "level_text": "p in 2..4 (thorough 6), n<=12, planted dense/sparse/single-column/point patterns and table savings: columns valid, in decreasing "
-                          "saving order, top-k, argmax-k under the sparse (point) penalty, transform marks exactly those cells. Bounded stand-in.",
-            "level_note": "bounded only (argsort-prefix contract of find_affected_components not yet discharged)"},
+    "C16": {"category": "proof", "driver": "C16", "claimed": True,
+            "technique": "contract-based deductive verification of find_affected_components / run_mvcapa / MVCAPA._predict (own AST->VC generator, z3/cvc5; "
+                         "argsort as an assumed permutation contract, telescoping lemma for the cumulative penalised saving, extensionality lemma for named "
+                         "penalty sequences by induction) + bounded run-time check against top-k / argmax-k oracles incl. transform",
+            "level_text": "For every per-variable saving meeting the interface contract, every n, p>=2, penalty kinds and scales: each reported anomaly's columns are "
+                          "distinct valid positions listing the row's savings in non-increasing order (SC2(cols[r]) == SORTV(r), the r-th largest), and "
+                          "k = len(cols) is the first maximiser of CUMPEN(k) = sum_{r<=k}(SORTV(r) - beta_r) - alpha, where (alpha, beta) are proved to be the "
+                          "SPARSE penalty for collective anomalies (whatever collective_penalty is) and the POINT penalty for point anomalies "
+                          "(run_mvcapa, all 16 penalty-kind combinations); MVCAPA._predict merges, sorts and forwards exactly these triples. "
+                          "'transform marks exactly these columns' (pandas labelling) is bounded only.",
+            "level_note": "axiom AX_sorted_unique (uniqueness of the sorted rearrangement; its premises are proved at the use site); CUMPEN / SORTV / BETA are spec "
+                          "functions defined by recurrence / naming; numpy argsort / cumsum / argmax contracts assumed; floats as reals (ties excluded by margin "
+                          "in the statement); p=1 and the pandas frame / dense labelling bounded"},
     "C17": {"category": "exploration", "driver": "C17", "claimed": True,
             "technique": "bounded run-time check of StatThresholdAnomaliser with a stub change detector over all changepoint subsets",
             "level_text": "All changepoint subsets n<=7, statistics mean/median/max/min, bounds lower<=upper, several input containers, plus real inner "
